@@ -1,0 +1,72 @@
+//! Verification hook (property C51), compiled only with `--cfg libp2p_verif`.
+//!
+//! Exposes the private [`Registrations`](super::Registrations) store of the rendezvous server
+//! through simple boundary types. Every method only *calls* the existing private functions or
+//! reads a private field; nothing here changes behaviour.
+
+use std::task::{Context, Poll};
+
+use libp2p_core::PeerRecord;
+use libp2p_identity::PeerId;
+
+use super::{Config, ExpiredRegistration, Registrations};
+use crate::codec::{Cookie, ErrorCode, Namespace, NewRegistration, Registration, Ttl};
+
+/// The server's registration store.
+pub struct Regs(Registrations);
+
+impl Regs {
+    pub fn new(config: Config) -> Self {
+        Regs(Registrations::with_config(config))
+    }
+
+    /// `Registrations::add`
+    pub fn add(
+        &mut self,
+        namespace: Namespace,
+        record: PeerRecord,
+        ttl: Option<Ttl>,
+    ) -> Result<Registration, ErrorCode> {
+        self.0.add(NewRegistration::new(namespace, record, ttl))
+    }
+
+    /// `Registrations::remove`
+    pub fn remove(&mut self, namespace: Namespace, peer: PeerId) {
+        self.0.remove(namespace, peer)
+    }
+
+    /// `Registrations::get`; `Err(())` is `CookieNamespaceMismatch`.
+    pub fn get(
+        &mut self,
+        namespace: Option<Namespace>,
+        cookie: Option<Cookie>,
+        limit: Option<u64>,
+    ) -> Result<(Vec<Registration>, Cookie), ()> {
+        match self.0.get(namespace, cookie, limit) {
+            Ok((regs, cookie)) => Ok((regs.cloned().collect(), cookie)),
+            Err(super::CookieNamespaceMismatch) => Err(()),
+        }
+    }
+
+    /// `Registrations::poll`
+    pub fn poll_expired(&mut self, cx: &mut Context<'_>) -> Poll<Registration> {
+        match self.0.poll(cx) {
+            Poll::Ready(ExpiredRegistration(r)) => Poll::Ready(r),
+            Poll::Pending => Poll::Pending,
+        }
+    }
+
+    /// Number of futures in `next_expiry` (pending expiry timers + the one sentinel).
+    pub fn pending_timers(&self) -> usize {
+        self.0.next_expiry.len()
+    }
+
+    /// `(registrations_for_peer.len(), registrations.len(), cookies.len())`
+    pub fn sizes(&self) -> (usize, usize, usize) {
+        (
+            self.0.registrations_for_peer.len(),
+            self.0.registrations.len(),
+            self.0.cookies.len(),
+        )
+    }
+}
